@@ -61,7 +61,7 @@ collect_obs(2, 6, "quick", 600, True)
 collect_obs(2, 9, "thorough", 1200, True)
 collect_obs(3, 6, "thorough", 3000, True)
 
-for nw, tier, to in ((2, "quick", 600), (3, "thorough", 3000)):
+for nw, tier, to in ((2, "quick", 600), (3, "thorough", 3000), (4, "thorough", 3000)):
     add("scan_nw%d" % nw, "h_scan.c", "h_scan", {"C14": tier}, defines=["-DNW=%d" % nw],
         cbmc=["--unwind", "70", "--unwindset", "scan.0:34,scan.1:2,scan.2:%d" % (nw + 2)], backend="kissat",
         timeout=to, mem_gb=8, ignore_unwind=["scan.unwind.1"], functions=SCAN_FUNCS,
